@@ -153,7 +153,7 @@ class RF24:
         while force_retry and not result:
             result = self.resend(send_only)
             force_retry -= 1
-        if self._status & 0x60 == 0x60 and not send_only:
+        if isinstance(result, bool) and self._status & 0x60 == 0x60 and not send_only:
             result = self.read()
         return result
 
@@ -296,6 +296,7 @@ class RF24:
             self.flush_rx()
         self.clear_status_flags()
         self.ce_pin = 1
+        self.update()
         while not self._status & 0x30:
             self.update()
         result = bool(self._status & 0x20)
